@@ -191,4 +191,51 @@ def generate(bdir):
     lean = _to_lean(cond2, "fn:unlink_string_svalue")
     info["unlinkCopies"] = {"c": " ".join(cond.split()), "lean": lean}
     out.append("/-- unlink_string_svalue, case STRING_MALLOC: the block is copied (int_string_unlink) before it is written to; otherwise it is written in place.  C: `%s` -/\ndef unlinkCopies (r : Nat) : Bool := %s" % (" ".join(cond.split()), lean))
+    # ---- the counter updates themselves ---------------------------------------------------------------------
+    exp3 = _cpp(bdir, '#include <config.h>\n#include "src/std.h"\n#include "src/stralloc.h"\n'
+                "@@INC@@ INC_COUNTED_REF(X) @@END@@\n@@DEC@@ DEC_COUNTED_REF(X) @@END@@\n")
+    norm = lambda c: re.sub(r"\(\(\(\s*malloc_block_t\s*\*\s*\)\s*\((?:[^()]|\([^()]*\))*\)\s*\)\s*-\s*1\s*\)\s*->\s*ref", " r ", c)
+    inc = " ".join(norm(re.search(r"@@INC@@(.*?)@@END@@", exp3, flags=re.S).group(1)).split())
+    m = re.fullmatch(r"if \((.*)\) \(? ?r ?\)? ?\+\+ ?;?", inc)
+    if not m:
+        raise TieBroken("macro:INC_COUNTED_REF", "INC_COUNTED_REF is no longer `if (<cond>) ref++;`: " + inc)
+    cond = _to_lean(m.group(1), "macro:INC_COUNTED_REF")
+    info["strInc"] = {"c": inc, "lean": cond}
+    out.append("/-- INC_COUNTED_REF.  C: `%s` -/\ndef strInc (r : Nat) : Nat := if %s then (r + 1) %% 2 ^ strRefBits else r" % (inc, cond))
+    dec = " ".join(norm(re.search(r"@@DEC@@(.*?)@@END@@", exp3, flags=re.S).group(1)).split())
+    m = re.fullmatch(r"\( ?! ?\( ?(.*?) ?\|\| ?-- ?\(? ?r ?\)? ?(==|!=|<=|>=|<|>) ?(\d+) ?\) ?\)", dec)
+    if not m:
+        raise TieBroken("macro:DEC_COUNTED_REF", "DEC_COUNTED_REF is no longer `!(<cond> || --ref <op> <n>)`: " + dec)
+    keep = _to_lean(m.group(1), "macro:DEC_COUNTED_REF")
+    after = _to_lean("r %s %s" % (m.group(2), m.group(3)), "macro:DEC_COUNTED_REF").replace("r", "r'")
+    info["strDec"] = {"c": dec, "lean": "!(%s || --r: %s)" % (keep, after)}
+    out.append("/-- DEC_COUNTED_REF: new counter and \"deallocate\".  C: `%s` -/\ndef strDec (r : Nat) : Nat × Bool :=\n"
+               "  if %s then (r, false) else\n  let r' := (r + 2 ^ strRefBits - 1) %% 2 ^ strRefBits\n  (r', !%s)" % (dec, keep, after))
+    # free_svalue / assign_svalue_no_free of lib/lpc/svalue.c
+    sv = open(os.path.join(E.REPO, "lib/lpc/svalue.c")).read()
+    m = re.search(r"void\s+free_svalue\s*\(.*?\n\}", sv, flags=re.S)
+    if not m:
+        raise TieBroken("fn:free_svalue", "free_svalue not found")
+    body = m.group(0)
+    k = body.find("T_REFED")
+    m2 = re.search(r"if\s*\(\s*(!\s*\(\s*--\s*v->u\.refed->ref\s*\))\s*\)", body[k:]) if k >= 0 else None
+    if not m2:
+        raise TieBroken("fn:free_svalue", "the T_REFED branch of free_svalue is no longer `if (!(--v->u.refed->ref))`")
+    info["refedDec"] = {"c": " ".join(m2.group(1).split())}
+    out.append("/-- free_svalue, T_REFED branch.  C: `if (%s)` : decrement, deallocate when the result is 0 -/\n"
+               "def refedDec (r : Nat) : Nat × Bool :=\n  let r' := (r + 2 ^ refBits - 1) %% 2 ^ refBits\n  (r', !(r' != 0))" % " ".join(m2.group(1).split()))
+    m = re.search(r"void\s+assign_svalue_no_free\s*\(.*?\n\}", sv, flags=re.S)
+    if not m:
+        raise TieBroken("fn:assign_svalue_no_free", "assign_svalue_no_free not found")
+    body = " ".join(m.group(0).split())
+    if not re.search(r"else if \(from->type & T_REFED\) \{ from->u\.refed->ref\+\+; \}", body):
+        raise TieBroken("fn:assign_svalue_no_free", "the T_REFED branch of assign_svalue_no_free is no longer the unconditional `from->u.refed->ref++;`")
+    if not re.search(r"\*to = \*from;", body):
+        raise TieBroken("fn:assign_svalue_no_free", "`*to = *from;` missing")
+    info["refedInc"] = {"c": "else if (from->type & T_REFED) { from->u.refed->ref++; }"}
+    out.append("/-- assign_svalue_no_free, T_REFED branch: the unconditional `from->u.refed->ref++;` (checked textually) -/\n"
+               "def refedInc (r : Nat) : Nat := (r + 1) % 2 ^ refBits")
+    sa = re.search(r"void\s+assign_svalue\s*\(.*?\n\}", sv, flags=re.S)
+    if not sa or not re.search(r"free_svalue \(dest, [^)]*\); assign_svalue_no_free \(dest, v\);", " ".join(sa.group(0).split())):
+        raise TieBroken("fn:assign_svalue", "assign_svalue is no longer `free_svalue(dest); assign_svalue_no_free(dest, v);` in this order")
     return "\n".join(out) + "\n", info
